@@ -45,6 +45,7 @@ macro "expr_finish" : tactic => `(tactic|
   | (simp [zpow_ofNat]; done)
   | (simp [zpow_ofNat]; ring_nf; done)
   | (push_cast; simp only [zpow_ofNat, zpow_neg]; field_simp; done)
-  | (push_cast; simp only [zpow_ofNat, zpow_neg]; field_simp; ring_nf; done))
+  | (push_cast; simp only [zpow_ofNat, zpow_neg]; field_simp; ring_nf; done)
+  | (norm_num [zpow_ofNat, zpow_neg]; ring_nf; simp; done))
 
 end Hmf
